@@ -15,6 +15,18 @@ import (
 // A step travels as a tuple to keep traces small:
 // [op, err, k, len, off, depth, idx, ptr, str, fd, acct, vok, panic, eoff, eptr, ecls]
 func (s decStep) tuple() []any {
+	if s.Idx == nil {
+		s.Idx = [][]int64{}
+	}
+	if s.Ptr == nil {
+		s.Ptr = [][]int{}
+	}
+	if s.Str == nil {
+		s.Str = []int{}
+	}
+	if s.Eptr == nil {
+		s.Eptr = [][]int{}
+	}
 	return []any{s.Op, s.Err, s.K, s.Len, s.Off, s.Depth, s.Idx, s.Ptr, s.Str, s.Fd, s.Acct, s.Vok, s.Panic, s.Eoff, s.Eptr, s.Ecls}
 }
 
